@@ -789,6 +789,7 @@ func runC15(c *Ctx) {
 	runC15TLS(c, pki)
 	runC15Blind(c, pki)
 	runC15Renegotiation(c, pki)
+	runC15Dial(c, pki)
 }
 
 func verClass(v int) string {
